@@ -260,8 +260,76 @@ pub fn show_showdown(sd: &Showdown) -> String {
 /// process-level runs (C08): `drain2m` reads iter requests on stdin and drains each one on a fresh thread
 /// with a 2 MiB stack (the default of `std::thread::spawn`), printing `ok n=<count>` / `panic` per request.
 /// A stack overflow or abort kills the process: the caller sees the exit status and the missing lines.
+/// is `t` in the weight grammar `0(.d+)?` / `1(.0+)?`
+fn in_weight_grammar(t: &str) -> bool {
+    let b = t.as_bytes();
+    match b {
+        [b'0'] | [b'1'] => true,
+        [b'0', b'.', rest @ ..] => !rest.is_empty() && rest.iter().all(|c| c.is_ascii_digit()),
+        [b'1', b'.', rest @ ..] => !rest.is_empty() && rest.iter().all(|c| *c == b'0'),
+        _ => false,
+    }
+}
+
+/// validate the named f32 assumptions (`WTextOk`) on the bit patterns `lo..hi` (step `step`):
+/// Display text in the weight grammar, Display -> FromStr identity (bit for bit), `==` is bit equality, never negative/NaN
+fn f32_sweep(lo: u32, hi: u32, step: u32) -> (u64, Vec<String>) {
+    let mut bad: Vec<String> = vec![];
+    let mut n = 0u64;
+    let mut b = lo;
+    while b < hi {
+        let w = f32::from_bits(b);
+        let t = format!("{}", w);
+        let ok_grammar = in_weight_grammar(&t);
+        let back = t.parse::<f32>();
+        let ok_round = matches!(back, Ok(x) if x.to_bits() == b);
+        let ok_unit = 0.0 <= w && w <= 1.0;
+        if !(ok_grammar && ok_round && ok_unit) && bad.len() < 10 {
+            bad.push(format!("bits={:#x} text={} grammar={} roundtrip={} unit={}", b, t, ok_grammar, ok_round, ok_unit));
+        }
+        n += 1;
+        b = match b.checked_add(step) { Some(x) => x, None => break };
+    }
+    (n, bad)
+}
+
 pub fn special(cmd: &str, _args: &[String]) -> bool {
     match cmd {
+        // f32sweep <step> : all weights in [0,1] = bit patterns 0..=0x3F800000, every `step`-th, on all cores
+        "f32sweep" => {
+            let step: u32 = _args.get(0).and_then(|s| s.parse().ok()).unwrap_or(1);
+            let top: u32 = 0x3F800000 + 1;
+            let threads = 16u32;
+            let chunk = top / threads + 1;
+            let mut hs = vec![];
+            for k in 0..threads {
+                let lo = (k * chunk) / step * step;
+                let lo = if k == 0 { 0 } else { lo + if (k * chunk) % step == 0 { 0 } else { step } };
+                let hi = std::cmp::min(top, (k + 1) * chunk);
+                hs.push(std::thread::spawn(move || f32_sweep(lo, hi, step)));
+            }
+            let mut n = 0u64;
+            let mut bad: Vec<String> = vec![];
+            for h in hs {
+                let (c, b) = h.join().unwrap();
+                n += c;
+                bad.extend(b);
+            }
+            // a few facts outside the sweep: "" is not a number; products of weights stay in [0,1] (seeded sample)
+            let empty_err = "".parse::<f32>().is_err();
+            let mut rng = Rng(12345);
+            let mut prod_bad = 0u64;
+            for _ in 0..2_000_000 {
+                let a = f32::from_bits((rng.next() % top as u64) as u32);
+                let b = f32::from_bits((rng.next() % top as u64) as u32);
+                let p = a * b;
+                if !(0.0 <= p && p <= 1.0) || p > a || p > b {
+                    prod_bad += 1;
+                }
+            }
+            println!("f32sweep checked={} bad={} empty_is_err={} product_sample_bad={} examples={:?}", n, bad.len(), empty_err as u8, prod_bad, bad);
+            true
+        }
         "drain2m" => {
             silence_panics();
             use std::io::{BufRead, Write};
